@@ -19,6 +19,61 @@ CHECKS = {
     note=TB + "Modelled, not verified: contextlib's generator protocol (with/decorator forms treated as the same block).",
     technique="Coq proof (nested induction over block trees) + model/implementation correspondence by vm_compute",
     ref="4 C16"),
+ "C01": dict(
+    text="PROOF (coq/props/C01.v): build_sem - whenever the model of build returns a model m, executing the emitted nested graphs "
+         "(names erased) on any values of the inputs yields, for each requested output, the meaning of the requested Var, for EVERY "
+         "extensional operator semantics; proved through the linearisation theorem run_correct (any well-formed plan computes eval; "
+         "nested induction over graph trees, unbounded) + a proved-sound executable well-formedness check that the model applies to "
+         "its own output. Per-run CORRESPONDENCE: the real ModelProto equals the model's output name-for-name on generated programs "
+         "(If/Loop/Scan nesting, closures, sharing, leaks). Direct ORACLE: every built model executed by onnxruntime vs an "
+         "independent numpy evaluator of the object graph.",
+    note=TB + "Assumed: onnxruntime implements the abstract opsem; the naming layer (names -> Vars injective) is C02's theorem, the "
+         "semantic theorem is stated on the name-erased plan. 'Legal programs always build' is validated (correspondence), not proved.",
+    technique="Coq proof (linearisation theorem + verified plan validator) + exact model/implementation correspondence + ORT-vs-numpy oracle",
+    ref="4 C01"),
+ "C02": dict(
+    text="PROOF (coq/props/C02.v): a model is returned only after the final structural check; every value name is defined once in "
+         "the whole model (all subgraphs, inlined blocks), node names unique, one import per domain - statements about the model's "
+         "build incl. proved-sound validators. CORRESPONDENCE: EXACT rendering (names, order, types, imports, functions) of the real "
+         "ModelProto vs the model on programs with inlined models, functions, custom operators, benign and adversarial user names "
+         "(harvested from a previous build), both drop_unused_inputs values. ORACLE: full ONNX checker + strict inference + "
+         "onnxruntime load + independent whole-model walker on every returned model.",
+    note=TB + "Assumed: onnx.checker/onnxruntime decide validity; struct_check mirrors the checker's structural rules (validated by "
+         "outcome-class agreement incl. ValidationError cases).",
+    technique="Coq proof (validated build model) + exact-name correspondence + checker/ORT/walker oracle",
+    ref="4 C02"),
+ "C03": dict(
+    text="PROOF (coq/props/C03.v): graph inputs/outputs = requested entries (names, order, types), with drop_unused_inputs exactly the "
+         "inputs some output depends on in given order; unlisted inputs never returned (KeyError); TypeError/ValueError rules of the "
+         "public wrapper. CORRESPONDENCE: exact rendering + exception class on permuted/subset/extra/malformed requests. ORACLE: "
+         "independent dependency walker; drop cases repeated in fresh processes under 4 PYTHONHASHSEEDs.",
+    note=TB + "Hash-seed independence of the real code is established by execution, not proof.",
+    technique="Coq proof + exact correspondence + multi-process hash-seed repeats",
+    ref="4 C03"),
+ "C04": dict(
+    text="PROOF (coq/props/C04.v): emitted exactly once = reachable set; each application sits in the innermost graph enclosing all "
+         "consumers (LCA = longest common prefix, proved greatest lower bound); definition before use through enclosing graphs "
+         "(well-formed plan). CORRESPONDENCE on an EXHAUSTIVE skeleton family (scope trees x creation scope x body dependence x use "
+         "sets) + random leak-heavy programs. ORACLE: independent placement walker on the ModelProto, operator counts, legality rule.",
+    note=TB + "Exhaustive only for the stated skeleton family.",
+    technique="Coq proof + exhaustive skeleton enumeration + independent walker",
+    ref="4 C04"),
+ "C11": dict(
+    text="TRANSLATOR mode: the signature/emission tables of all 980 shipped (module, operator) pairs and of onnx.defs are re-dumped "
+         "from the current tree on every run into generated Coq files; theorems all_conform_<module> are re-proved by vm_compute and "
+         "lifted (coq/props/C11.v: check_all = true -> every entry Conforms; completeness; slots_roundtrip unbounded). Exhaustive.",
+    note=TB + "The translator (harness/c11_dump.py) observes the Python constructors behaviourally; listed deviations are explicit data "
+         "(known findings).",
+    technique="Coq proof by reflection over regenerated tables (translator) + check_node oracle",
+    ref="4 C11"),
+ "C19": dict(
+    text="PROOF (coq/props/C19.v): every callback occurs exactly once in the constructor's trace; builds add no call; argument types "
+         "as ONNX prescribes for If/Loop/Scan/SequenceMap; output count from results; malformed callbacks -> TypeError; refutations "
+         "for the unrepaired code. CORRESPONDENCE: instrumented callbacks in v17-v21 (counts, argument types, out_variadic, "
+         "exceptions, 0-3 builds). ORACLE: ONNX prescription + onnxruntime-observed body argument shapes.",
+    note=TB + "Var identity/freshness and nested control flow are oracle-only.",
+    technique="Coq proof (call-trace model) + correspondence with instrumented callbacks",
+    ref="4 C19"),
 }
 
 NA = {}
